@@ -50,7 +50,7 @@ func evalRefPair(sp *refSpec, e *eco.Eco, a, b string) []core.Violation {
 
 func runRef(c *core.Ctx, ck *Check, specs []*refSpec) {
 	evalWitnesses(c, ck)
-	pools := c.Scale(16, 240)
+	pools := c.Scale(48, 1500)
 	size := c.Scale(260, 420)
 	type job struct {
 		sp *refSpec
